@@ -44,6 +44,11 @@ def corr(ctx):
         if k <= 6:
             import itertools
             layouts.append(("all", torch.tensor(list(itertools.product([0, 1], repeat=k)), dtype=torch.float32)))
+        if c.family in ("reed_muller", "hamming") and n <= 32:
+            # families with their own inverse (chunked / vectorised searches): block counts that are not round numbers
+            layouts += [("many201", rnd(201, k)), ("many67x3", rnd(67, 3 * k))]
+            if k <= 6 and c.family == "reed_muller":
+                layouts.append(("many2100", rnd(2100, k)))
         for tag, M in layouts:
             C = _reject(lambda: enc(M))
             rowsM = M.reshape(-1, M.shape[-1])
@@ -128,7 +133,10 @@ def search(ctx, mismatches, broken, prop_fail):
         n, k = enc.code_length, enc.code_dimension
         if c.family == "reed_muller" and k > 12:
             continue
-        for tag, shape in (("1d", (k,)), ("Bk", (4, k)), ("B1B2k", (2, 2, k)), ("blocks2", (2, 2 * k)), ("blocks3", (3 * k,)), ("B1B2blocks2", (2, 3, 2 * k))):
+        shapes = [("1d", (k,)), ("Bk", (4, k)), ("B1B2k", (2, 2, k)), ("blocks2", (2, 2 * k)), ("blocks3", (3 * k,)), ("B1B2blocks2", (2, 3, 2 * k))]
+        if c.family in ("reed_muller", "hamming") and n <= 32:
+            shapes += [("many201", (201, k)), ("many67x3", (67, 3 * k))] + ([("many2100", (2100, k))] if k <= 6 and c.family == "reed_muller" else [])
+        for tag, shape in shapes:
             M = torch.tensor(np.array([rng.getrandbits(1) for _ in range(int(np.prod(shape)))]).reshape(shape), dtype=torch.float32)
             what = None
             try:
